@@ -8,6 +8,7 @@ mod cli;
 mod common;
 mod doc;
 mod driver;
+mod iso;
 mod reftime;
 mod rng;
 mod scen;
@@ -105,6 +106,12 @@ fn main() {
                     println!("{}", l);
                 }
                 println!("violation: {:?}", v);
+            }
+            0
+        }
+        "parse-time" => {
+            for a in &args[2..] {
+                println!("{:?} -> {:?}", a, a.parse::<chrono::DateTime<chrono::Local>>().map(|d| d.with_timezone(&chrono::Utc).to_rfc3339()));
             }
             0
         }
